@@ -314,7 +314,7 @@ def answered(F, R):
             r = call_bool_branch(b, bi)
             if r and r[0] != 'discr':
                 edges.append((r[0], r[2]))
-        for arm in ('Packet:Subscribe', 'Packet:Unsubscribe', 'Publish'):
+        for arm in ('Packet:Subscribe', 'Packet:Unsubscribe', 'Publish', 'Packet:PingRequest'):
             reg = d.arm(arm)
             if not reg:
                 continue
